@@ -115,6 +115,9 @@ def run(ctx):
                     if vu0 is None and any(t in FU for t in path):
                         continue
                     s = r.Spectrum(base_w * r.Unit('nm').to(u0), base_v.copy(), waveunit=u0, valueunit=vu0)
+                    # the same path given as ONE call with several unit arguments must end in the same spectrum
+                    s_multi = r.Spectrum(base_w * r.Unit('nm').to(u0), base_v.copy(), waveunit=u0, valueunit=vu0)
+                    s_multi.to(*path)
                     wu, vu = u0, vu0
                     w_m = base_w * 1e-9
                     v = base_v.copy()                      # expected value, per current wavelength unit
@@ -137,6 +140,11 @@ def run(ctx):
                             not np.allclose(s.value, v, rtol=1e-11, atol=0):
                         ctx.violation({'kind': 'to-path', 'start': [u0, vu0], 'last': path[-1]},
                                       {'path': path, 'expected_value': v, 'observed_value': s.value, 'expected_wave': ew, 'observed_wave': s.wave}, case=None)
+                        continue
+                    if s_multi.waveunit != wu or s_multi.valueunit != vu or not np.allclose(s_multi.wave, ew, rtol=1e-11, atol=0) or \
+                            not np.allclose(s_multi.value, v, rtol=1e-11, atol=0):
+                        ctx.violation({'kind': 'to-path-single-call', 'start': [u0, vu0], 'last': path[-1]},
+                                      {'path': path, 'expected_value': v, 'observed_value': s_multi.value}, case=None)
                         continue
                     # way back restores the original spectrum
                     s.to(u0)
